@@ -74,6 +74,36 @@ CHECKS = {
         "Trusted: the rational-arithmetic reference in pbt/props/c20.py; population standard deviation.",
         "DESIGN.md section 6, C20",
     ),
+    "C04": (
+        "Hypothesis over tie-free feature sets x 41 eligible metrics (premise verified on the externally evaluated matrix) and arbitrary KNN training sets; oracle = assigned label == true label, predict(X_train) == Y_train",
+        "Exploration: zero resubstitution error is checked for every generated tie-free training set under each eligible metric (supervised) and for arbitrary, heavily tied data including identical points with different labels (KNN-supervised).",
+        "Trusted: eligibility list = symmetric dissimilarity rows of the metric table; premise discards are counted in the evidence.",
+        "DESIGN.md section 6, C04",
+    ),
+    "C07": (
+        "Hypothesis-generated call histories (operation lists: evaluate / fit / predict / pre_compute / get_distances / fit-twice) interpreted against a byte-level model of the caller's arrays and a memo table of first results",
+        "Exploration: after every operation of every generated history all caller-owned arrays must be bit-identical to their pristine copies, repeated evaluations must be bit-identical to the first, and two fresh fits on equal data must agree on all state and predictions.",
+        "Trusted: numpy tobytes() as the observation of caller data.",
+        "DESIGN.md section 6, C07",
+    ),
+    "C09": (
+        "Hypothesis-generated predict histories (lists of batches with repetition, permutation, padding beyond n_train) on one fitted model of each kind; oracle = first-observation table per sample + model state unchanged",
+        "Exploration: the same sample must receive the same label (and cluster) at every batch position, in every batch and after any number of earlier predict calls; node costs / labels / predecessors must not change.",
+        "Trusted: sample identity = feature bytes (or matrix row id for pre-computed distances).",
+        "DESIGN.md section 6, C09",
+    ),
+    "C10": (
+        "Hypothesis over data sets x all 47 metrics x .txt/.csv x index splits; differential oracle: model on the distance file written by pre_compute_distance vs. model on features (exact equality), plus get_distances vs. metric",
+        "Exploration: file round trip exact; every node field, conquest order, best_k, n_clusters, predictions and clusters equal between the two models for supervised, semi-supervised and unsupervised; reported distance matrix equals the metric on every ordered pair (and its min-max rescaling).",
+        "Trusted: exact float64 round trip of np.savetxt's default format.",
+        "DESIGN.md section 6, C10",
+    ),
+    "C11": (
+        "Hypothesis over tie-free point sets by construction x permutations x the five Euclidean-family identifiers; metamorphic oracle (permutation / monotone rescaling)",
+        "Exploration: per generated case 5 base fits + 5 permuted fits are compared field by field and on predictions; premise verified on the evaluated matrices.",
+        "Trusted: premise check on float matrices; discards counted.",
+        "DESIGN.md section 6, C11",
+    ),
     "C05": (
         "Hypothesis RuleBasedStateMachine + bounded-exhaustive DFS of histories + atheris (libFuzzer) byte-decoded histories, all against a dict reference model",
         "Exploration: generated and (for capacity<=3, costs {0,1,2}, depth<=5/6) exhaustively enumerated operation histories are executed on the real Heap and on a dict model; after every step the returned element, failure reports, emptiness/fullness and colours must agree, and a final drain must return every queued element once in order. No claim beyond the explored histories.",
